@@ -84,7 +84,7 @@ def html_to_nodes(
     nodes_list = []
     for child in root:
         if child.name == "img":
-            if "src" not in child.attrs:
+            if child.attrs.get("src") is None:
                 return [
                     renderer.reporter.error(
                         "<img> missing 'src' attribute", line=line_number
